@@ -39,9 +39,14 @@ def float_case(rng):
     if kind == "lin":
         fn = ["lin", [[[rng.choice(pool), f64(rand_f64(rng))] for _ in range(nt)], f64(rand_f64(rng))]]
     elif kind == "quad":
-        rows = [rng.choice(pool) for _ in range(nt)]
-        cols = [rng.choice(pool) for _ in range(nt)]
-        vals = [f64(rand_f64(rng)) for _ in range(nt)]
+        pos = []
+        for _ in range(nt):
+            rc = (rng.choice(pool), rng.choice(pool))
+            if rc not in pos:                      # the schema forbids duplicated (row, column) positions
+                pos.append(rc)
+        rows = [r for r, _ in pos]
+        cols = [c for _, c in pos]
+        vals = [f64(rand_f64(rng)) for _ in pos]
         lin = None
         if rng.random() < 0.7:
             lin = [[[rng.choice(pool), f64(rand_f64(rng))] for _ in range(rng.randint(0, 4))], f64(rand_f64(rng))]
